@@ -96,7 +96,7 @@ def all_descs(max_sys, max_groups, max_n):
                 for ss in itertools.product(sys_opts, repeat=ns):
                     for ng in range(max_groups + 1):
                         for gs in itertools.product(grp_opts, repeat=ng):
-                            systems = [dict(s, id="s%d" % (k * 7 % 5), prio=(3 * k + ns) % 4 - 1, freq=1 + k % 2, start=k, end=999999 if k % 2 else 5 + k)
+                            systems = [dict(s, id="s%d" % (k * 7 % 5), prio=(3 * k + ns) % 4 - 1, freq=1 + k % 2, start=k, end=999999 if k % 2 else (0 if k % 4 == 0 else 5 + k))
                                        for k, s in enumerate(ss)]
                             out.append({"pre": pre, "post": post, "closed": len(out) % 3 == 1, "swap": len(out) % 4 == 2, "systems": systems,
                                         "groups": [dict(g) for g in gs]})
@@ -106,7 +106,7 @@ def all_descs(max_sys, max_groups, max_n):
 def random_desc(rng, max_sys=4, max_groups=4, max_n=4):
     ids = rng.sample(["a", "b", "zz", "sys", "S1", "q"], rng.randint(0, max_sys))
     systems = [{"pre": rng.random() < 0.5, "post": rng.random() < 0.5, "id": i, "prio": rng.choice([-5, -1, 0, 0, 1, 9]),
-                "freq": rng.randint(1, 3), "start": rng.choice([0, 0, 2, -1]), "end": rng.choice([999999, 3, 10])} for i in ids]
+                "freq": rng.randint(1, 3), "start": rng.choice([0, 0, 2, -1]), "end": rng.choice([999999, 3, 10, 0, 0, -1])} for i in ids]
     groups = [{"pre": rng.random() < 0.5, "post": rng.random() < 0.5, "n": rng.randint(0, max_n)} for _ in range(rng.randint(0, max_groups))]
     return {"pre": rng.random() < 0.5, "post": rng.random() < 0.5, "closed": rng.random() < 0.3, "swap": rng.random() < 0.3, "systems": systems, "groups": groups}
 
